@@ -260,3 +260,9 @@ def r6(ctx):
     ctx.ob("R6", "AGREE", d, "decoder nibble order", ok, f"even index is the high nibble (<< 4), odd index the low one, each minus offset: {da}; combined as {app}; stride {rng}")
     de, dd = _c(param_defaults(e.node).get("offset")), _c(param_defaults(d.node).get("offset"))
     ctx.ob("R6", "AGREE", e, "default offset", de == dd == 0x41, f"encoder default offset {de}, decoder {dd}")
+    for g in (e, d):
+        reb = [src(st)[:50] for p_ in params(g.node) for st, v in assignments_to(g.node, p_)]
+        ctx.ob("R6", "AGREE", g, "parameters not rebound", not reb, "data and offset are used as given" if not reb else f"a parameter is rewritten before use ({reb}): the codec is no longer exact for every data/offset")
+    f = ctx.repo.func("utils.xor")
+    reb = [src(st)[:50] for st, v in assignments_to(f.node, params(f.node)[0])]
+    ctx.ob("R1", "AGREE", f, "data not rebound", not reb, "xor works on the data as given" if not reb else f"data is rewritten before the XOR ({reb})")
